@@ -261,7 +261,8 @@ def check_rl(ctx: Ctx, case):
 @st.composite
 def ctor_cases(draw):
     return {"cfg": base_cfg(draw, draw(gen.lineup_spec(kinds=KINDS, min_len=1, max_len=3))),
-            "samplers": draw(st.booleans()), "scheduler": draw(st.sampled_from([None, "rr", "rl"]))}
+            "samplers": draw(st.sampled_from([False, True, True, "empty-list", "empty-tuple"])),
+            "scheduler": draw(st.sampled_from([None, "rr", "rl"]))}
 
 
 def check_ctor(ctx: Ctx, case):
@@ -271,7 +272,9 @@ def check_ctor(ctx: Ctx, case):
     sub = "constructor"
     cfg = case["cfg"]
     ctx.count(sub, case, True, [f"samplers={case['samplers']}", f"scheduler={case['scheduler']}"])
-    samplers = calib.make_samplers(cfg) if case["samplers"] else None
+    samplers = {False: None, "empty-list": [], "empty-tuple": ()}.get(case["samplers"], None)
+    if case["samplers"] is True:
+        samplers = calib.make_samplers(cfg)
     sched = None
     if case["scheduler"] == "rr":
         sched = RoundRobinScheduler(calib.make_samplers(cfg))
@@ -279,6 +282,8 @@ def check_ctor(ctx: Ctx, case):
         sched = calib.make_scheduler(dict(cfg, rl={"alpha": -1, "eps": 0.1}))
     sp = cfg["space"]
     exactly_one = (samplers is not None) != (sched is not None)
+    if samplers is not None and len(samplers) == 0 and sched is None:
+        return   # an empty line-up alone: not one of the four combinations the statement classifies
     try:
         cal = Calibrator(loss_function=calib.make_loss(cfg), real_data=calib.real_data(cfg), model=models.get("gauss", 1),
                          parameters_bounds=[sp["lo"], sp["hi"]], parameters_precision=sp["prec"], ensemble_size=1,
@@ -288,11 +293,11 @@ def check_ctor(ctx: Ctx, case):
             ctx.fail("C09/ctor-rejected-valid", "exactly one of samplers/scheduler was given but ValueError was raised", sub, case)
         return
     except Exception as e:  # noqa: BLE001
-        ctx.fail("C09/ctor-validation", f"samplers={'given' if samplers else None}, scheduler={'given' if sched else None}: "
+        ctx.fail("C09/ctor-validation", f"samplers={case['samplers']}, scheduler={'given' if sched else None}: "
                  f"raised {type(e).__name__} ({str(e)[:80]}) instead of ValueError", sub, case)
         return
     if not exactly_one:
-        ctx.fail("C09/ctor-validation", f"samplers={'given' if samplers else None}, scheduler={'given' if sched else None} was "
+        ctx.fail("C09/ctor-validation", f"samplers={case['samplers']}, scheduler={'given' if sched else None} was "
                  "accepted; exactly one must be provided (ValueError)", sub, case)
         return
     if sched is not None and cal.scheduler is not sched:
